@@ -247,6 +247,10 @@ func genTok(t *rapid.T) tok {
 	case "custom":
 		return tok{css.CustomPropertyNameToken, "--" + nameChars(t, 0, 5)}
 	case "function":
+		if rapid.IntRange(0, 4).Draw(t, "dashedfunction") == 0 {
+			// an identifier may start with two dashes: followed by a parenthesis it is a function all the same
+			return tok{css.FunctionToken, "--" + nameChars(t, 0, 5) + "("}
+		}
 		return tok{css.FunctionToken, ident(t) + "("}
 	case "atkeyword":
 		return tok{css.AtKeywordToken, "@" + ident(t)}
